@@ -63,6 +63,6 @@ def queries(tier):
     return qs
 
 MANIFEST = {
-    "text": "Symbolic single-fault injection on the real code: for each encoded entry point the index of the failing allocation is a solver variable covering every allocation of the call; the call must report NNG_ENOMEM (or its documented best-effort loss), dereference no NULL pointer, re-enter no held lock, leak nothing and leave the object usable.",
+    "text": "Symbolic single-fault injection on the real code: for each encoded entry point the index of the failing allocation is a solver variable covering every allocation of the call; the call must report NNG_ENOMEM (or its documented best-effort loss), dereference no NULL pointer, re-enter no held lock, leak nothing and leave the object usable. Also: the private copy of a shared message in the inproc hand-off, and the id map after a failed grow (later sets terminate and succeed: the table always keeps a free slot).",
     "note": "Only the listed entry points; one fault per call; platform-layer allocations outside.",
 }
